@@ -26,6 +26,46 @@ def all_validators_called(tr, outcome, raised, env, ex, s):
     return strict if calls(tr, "_validate_types") else z3.Not(strict)
 
 
+def validate_called_on_self(tr, outcome, raised, env, ex, s):
+    from contracts.tracelib import calls
+    from pyvc import smt
+    from pyvc.engine import to_v, truth
+    if outcome.startswith("raise"):
+        return True
+    cs = calls(tr, "validate_graph")
+    if len(cs) != 1:
+        return False
+    b = cs[0][2]  # arguments bound to the callee's parameter names
+    if not all(k in b for k in ("nodes", "graph_name", "strict_types")):
+        return False
+    args = [b["nodes"], b.get("nx_graph"), b["graph_name"], b["strict_types"]]
+    me = env["self"].t
+    import z3
+    return z3.And(to_v(args[0], s) == smt.attr_func("_nodes")(me), to_v(args[2], s) == smt.attr_func("name")(me), truth(args[3], s) == (smt.attr_func("_strict_types")(me) == smt.TRUE))
+
+
+def ctor_validates_last(tr, outcome, raised, env, ex, s):
+    from contracts.tracelib import calls, names
+    if outcome.startswith("raise"):
+        return True
+    def base(n):  # 'Graph._validate' / 'A__build_graph(p_self)' / '._validate' -> bare method name
+        n = n.split("(")[0]
+        n = n[2:] if n.startswith("A_") else n
+        return n.split(".")[-1]
+    ns = [base(e[1]) for e in tr if e[0] == "call"]
+    if ns.count("_validate") != 1 or ns.count("_build_nodes_dict") != 1 or ns.count("_build_graph") != 1:
+        return False
+    iv = ns.index("_validate")
+    if not (ns.index("_build_nodes_dict") < ns.index("_build_graph") < iv) or iv != len(ns) - 1:
+        return False
+    from pyvc.engine import truth
+    import z3
+    given = z3.Not(env["edges"].t == __import__("pyvc.smt", fromlist=["NONE"]).NONE)
+    return given if "_normalize_edges" in ns else z3.Not(given)
+
+
+GC = "graph/core.py:"
+
 CONTRACTS = {
     VF + "_validate_gate_targets": dict(
         props=["C19"],
@@ -50,14 +90,13 @@ CONTRACTS = {
         props=["C19", "C17"],
         params={"nodes": NODES},
         returns=NONE_T,
-        # type invariant of the input (HyperNode.wait_for: tuple[str, ...]) stated as a precondition
-        requires=["all(all(isinstance(w, str) for w in n.wait_for) for n in nodes.values())"],
         raises={"GraphConfigError": "any(any(not any(w in m.outputs for m in nodes.values()) for w in n.wait_for) for n in nodes.values())"},
         loops=[
-            {"invariant": ["forall_keys(lambda k: (k in all_outputs) == any(k in m.outputs for m in _seq[:_i]), all_outputs)"]},
-            {"invariant": ["forall_keys(lambda k: (k in all_outputs) == any(k in m.outputs for m in nodes.values()), all_outputs)",
+            {"invariant": ["all(all(o in all_outputs for o in m.outputs) for m in _seq[:_i])",
+                           "all(any(k in m.outputs for m in _seq[:_i]) for k in all_outputs)"]},
+            {"invariant": ["all(all(o in all_outputs for o in m.outputs) for m in nodes.values())", "all(any(k in m.outputs for m in nodes.values()) for k in all_outputs)",
                            "not any(any(w not in all_outputs for w in n.wait_for) for n in _seq[:_i])"]},
-            {"invariant": ["forall_keys(lambda k: (k in all_outputs) == any(k in m.outputs for m in nodes.values()), all_outputs)",
+            {"invariant": ["all(all(o in all_outputs for o in m.outputs) for m in nodes.values())", "all(any(k in m.outputs for m in nodes.values()) for k in all_outputs)",
                            "not any(any(w not in all_outputs for w in n.wait_for) for n in _seq1[:_i1])",
                            "not any(w not in all_outputs for w in _seq[:_i])"]},
         ],
@@ -86,9 +125,66 @@ CONTRACTS = {
         props=["C19"],
         params={"nodes": NODES, "nx_graph": ANY, "graph_name": OPT(STR), "strict_types": BOOL},
         returns=NONE_T,
-        requires=["all(all(isinstance(w, str) for w in n.wait_for) for n in nodes.values())"],
         may_raise={"Exception": True},
         trace=[{"name": "C19 every build-time validator runs before the constructor accepts; the type check runs exactly in strict mode",
                 "check": all_validators_called}],
+    ),
+    VF + "_validate_reserved_names": dict(
+        props=["C19"],
+        params={"nodes": NODES},
+        returns=NONE_T,
+        raises={"GraphConfigError": "'END' in nodes"},
+        loops=[{"invariant": ["not any(k == 'END' for k in _seq[:_i])"]}],
+    ),
+    VF + "_validate_no_cache_on_non_function_nodes": dict(
+        props=["C19"],
+        params={"nodes": NODES},
+        returns=NONE_T,
+        imports={"GraphNode": "hypergraph.nodes.graph_node"},
+        raises={"GraphConfigError": "any(isinstance(n, GraphNode) and bool(n.cache) for n in nodes.values())"},
+        loops=[{"invariant": ["not any(isinstance(n, GraphNode) and bool(n.cache) for n in _seq[:_i])"]}],
+    ),
+    VF + "_check_default_values_match": dict(
+        props=["C19"],
+        params={"param": STR, "with_default": SEQ(FIXTUP(ANY, STR))},
+        returns=NONE_T,
+        imports={"_values_equal": "hypergraph.graph.validation"},
+        raises={"GraphConfigError": "any(not _values_equal(with_default[0][0], p[0]) for p in with_default[1:])"},
+        loops=[{"invariant": ["not any(not _values_equal(first_value, p[0]) for p in _seq[:_i])"]}],
+    ),
+    VF + "_validate_no_interrupt_in_map_over": dict(
+        props=["C19"],
+        params={"nodes": NODES},
+        returns=NONE_T,
+        imports={"GraphNode": "hypergraph.nodes.graph_node"},
+        raises={"GraphConfigError": "any(isinstance(n, GraphNode) and hasattr(n, 'map_config') and bool(n.map_config) and bool(n.graph.has_interrupts) for n in nodes.values())"},
+        loops=[{"invariant": ["not any(isinstance(n, GraphNode) and hasattr(n, 'map_config') and bool(n.map_config) and bool(n.graph.has_interrupts) for n in _seq[:_i])"]}],
+    ),
+    GC + "Graph._build_nodes_dict": dict(
+        props=["C19"],
+        params={"self": OBJ("Graph"), "nodes": SEQ(OBJ("HyperNode"))},
+        returns=NODES,
+        raises={"GraphConfigError": "any(any(nodes[j].name == nodes[i].name for j in range(i)) for i in range(len(nodes)))"},
+        ensures=["all(n.name in result and result[n.name] is n for n in nodes)",
+                 "forall_keys(lambda k: k not in result or (result[k].name == k and any(n is result[k] for n in nodes)), result)"],
+        loops=[{"invariant": ["not any(any(nodes[j].name == nodes[i].name for j in range(i)) for i in range(_i))",
+                              "all(n.name in result and result[n.name] is n for n in _seq[:_i])",
+                              "forall_keys(lambda k: k not in result or (result[k].name == k and any(n is result[k] for n in _seq[:_i])), result)"]}],
+    ),
+    GC + "Graph._validate": dict(
+        props=["C19"],
+        params={"self": OBJ("Graph")},
+        returns=NONE_T,
+        may_raise={"Exception": True},
+        trace=[{"name": "C19 the constructor's validation step runs the whole pipeline on the graph's own node map, name and strict flag", "check": validate_called_on_self}],
+    ),
+    GC + "Graph.__init__": dict(
+        props=["C19"],
+        params={"self": OBJ("Graph"), "nodes": SEQ(OBJ("HyperNode")), "edges": ANY, "name": OPT(STR), "strict_types": BOOL},
+        returns=NONE_T,
+        may_raise={"Exception": True},
+        modifies=["self"],
+        trace=[{"name": "C19 no constructed graph escapes validation: duplicate-name check, edge normalisation (when edges are given) and graph building precede _validate, which is the last step of every accepting path",
+                "check": ctor_validates_last}],
     ),
 }
